@@ -35,6 +35,7 @@ def dispatch (line : String) : String :=
       | "norm.run" => handleNormRun args
       | "mon.c11" => handleMonC11 args
       | "report.run" => handleReportRun args
+      | "report.json" => handleReportJson args
       | "mon.c14" => handleMonC14 args
       | "glue.args" => handleGlueArgs args
       | "lit.match" => handleLitMatch args
